@@ -313,6 +313,11 @@ func (e *engine) checkPull(r *world.Replica, remote string, before, rem, after r
 		case bs.Hash != as.Hash:
 			want = "updated"
 		}
+		// the remote holds nothing the local history lacks (equal, or the remote commit is an ancestor of the local
+		// one, also through the second parent of an earlier merge commit): this pull has nothing to change
+		if bs.Exists && (pos == "equal" || pos == "local-ahead") && bs.Hash != as.Hash {
+			e.find("pull", "ref-moved-with-nothing-to-merge:"+pos, fmt.Sprintf("%s bug %s (%s): the remote history is contained in the local one, yet the pull moved the ref %s -> %s (reported %q)", tag, id.Human(), pos, short(bs.Hash), short(as.Hash), statusName(res.Status)))
+		}
 		got := statusName(res.Status)
 		if got != want {
 			e.find("pull", fmt.Sprintf("bug-status:%s-reported-%s:%s", want, got, pos), fmt.Sprintf("%s bug %s (%s): ref %s -> %s but reported %q (%s %v)", tag, id.Human(), pos, short(bs.Hash), short(as.Hash), got, res.Reason, res.Err))
